@@ -100,9 +100,18 @@ func (g *DependencyGraph) AddProvider(provider Provider) error {
 		Group: provider.GetGroup(),
 	}
 
-	// Create or update node
+	// Create or update node, remembering the previous state so that a
+	// rejected add can be rolled back exactly
 	node, exists := g.nodes[nodeKey]
-	if !exists {
+	var (
+		prevProvider Provider
+		prevDeps     []NodeKey
+	)
+	prevEdges, hadEdges := g.edges[nodeKey]
+	if exists {
+		prevProvider = node.Provider
+		prevDeps = node.Dependencies
+	} else {
 		node = &Node{
 			Key:          nodeKey,
 			Dependencies: make([]NodeKey, 0),
@@ -118,6 +127,7 @@ func (g *DependencyGraph) AddProvider(provider Provider) error {
 	// Add edges based on dependencies
 	providerDeps := provider.GetDependencies()
 	dependencies := make([]NodeKey, 0, len(providerDeps))
+	var createdDeps []NodeKey
 	for _, dep := range providerDeps {
 		depKey := NodeKey{
 			Type:  dep.Type,
@@ -133,6 +143,7 @@ func (g *DependencyGraph) AddProvider(provider Provider) error {
 				Dependencies: make([]NodeKey, 0),
 				Dependents:   make([]NodeKey, 0),
 			}
+			createdDeps = append(createdDeps, depKey)
 		}
 	}
 
@@ -148,9 +159,22 @@ func (g *DependencyGraph) AddProvider(provider Provider) error {
 
 	// Check for cycles immediately
 	if err := g.detectCyclesFrom(nodeKey); err != nil {
-		// Remove the node if it creates a cycle
-		delete(g.nodes, nodeKey)
-		delete(g.edges, nodeKey)
+		// Roll back: the graph must be exactly as it was before the call
+		for _, depKey := range createdDeps {
+			delete(g.nodes, depKey)
+		}
+		if exists {
+			node.Provider = prevProvider
+			node.Dependencies = prevDeps
+			if hadEdges {
+				g.edges[nodeKey] = prevEdges
+			} else {
+				delete(g.edges, nodeKey)
+			}
+		} else {
+			delete(g.nodes, nodeKey)
+			delete(g.edges, nodeKey)
+		}
 		g.updateDegrees()
 		return err
 	}
